@@ -177,7 +177,7 @@ type Normer struct {
 }
 
 func NewNormer(p *Prog) *Normer {
-	return &Normer{P: p, Bind: map[ssa.Value]string{}, PhiChoice: map[*ssa.Phi]int{}, MaxInline: 3, memo: map[ssa.Value]Poly{}, NoInline: map[string]bool{}, AtomAlias: map[string]string{}}
+	return &Normer{P: p, Bind: map[ssa.Value]string{}, PhiChoice: map[*ssa.Phi]int{}, MaxInline: 5, memo: map[ssa.Value]Poly{}, NoInline: map[string]bool{}, AtomAlias: map[string]string{}}
 }
 
 // BindParams gives role names to the parameters of fn by position ("" keeps the default).
@@ -647,7 +647,7 @@ func (n *Normer) normLoad(addr ssa.Value) Poly {
 	if strings.HasPrefix(root, "global:") && path == "" {
 		return pAtom(root)
 	}
-	return pAtom(root + path)
+	return n.atom(root + path)
 }
 
 func (n *Normer) normCall(x *ssa.Call) Poly {
@@ -674,7 +674,7 @@ func (n *Normer) normCall(x *ssa.Call) Poly {
 			sort.Strings(args)
 			return pAtom(strings.Title(b.Name()) + "(" + strings.Join(args, ",") + ")")
 		}
-		return pAtom(b.Name() + "(" + strings.Join(args, ",") + ")")
+		return n.atom(b.Name() + "(" + strings.Join(args, ",") + ")")
 	}
 	callee := cc.StaticCallee()
 	if callee == nil {
@@ -759,8 +759,13 @@ func inlinable(fn *ssa.Function) bool {
 		return false
 	}
 	for _, ins := range b.Instrs {
-		switch ins.(type) {
-		case *ssa.Store, *ssa.Send, *ssa.Go, *ssa.Defer, *ssa.MapUpdate, *ssa.Panic:
+		switch x := ins.(type) {
+		case *ssa.Store:
+			if a, _, ok := rootAlloc(x.Addr); ok && !a.Heap {
+				continue // spill into a local of the helper
+			}
+			return false
+		case *ssa.Send, *ssa.Go, *ssa.Defer, *ssa.MapUpdate, *ssa.Panic:
 			return false
 		}
 	}
